@@ -22,7 +22,7 @@ RULE = ('cases are sequences of 2-10 foreign (reference-peer) or PGPy-made signa
         'comparison and the verify verdict were evaluated; distinct = distinct sequences of (signature type, sorted '
         'subpacket types) among non-trivial runs')
 TIERS = {'quick': {'runs': 4000, 'budget_s': 60}, 'thorough': {'runs': 250000, 'budget_s': 1500}}
-PROBES = ('embedded_back_signature', 'verified_via_copy', 'unknown_subpacket_type', 'critical_bit', 'nonshortest_length', 'five_octet_length', 'two_octet_length',
+PROBES = ('signature_object_reused', 'embedded_back_signature', 'verified_via_copy', 'unknown_subpacket_type', 'critical_bit', 'nonshortest_length', 'five_octet_length', 'two_octet_length',
           'boolean_other', 'boolean_true', 'flag_unknown_bits', 'multi_octet_flags', 'non_ascii_text', 'non_utf8_text',
           'rejected_at_parse', 'flip_rejected_at_parse', 'flip_verified_false', 'pgpy_made_reimported', 'empty_subpacket_body',
           'old_format_header', 'rsa_signer', 'dsa_signer', 'ecdsa_signer', 'eddsa_signer')
@@ -146,7 +146,8 @@ def generate(rng, tier):
         steps.append({'id': sid, 'op': 'ref_sign', 'sigtype': styp, 'halg': rng.choice(HASHES), 'subject': subj, 'hashed': sps,
                       'issuer_hashed': issuer_hashed, 'issuer_fpr': fpr, 'fmt': rng.choice(['new', 'new', 'old']),
                       'faults': [{'kind': 'F1', 'pos': rng.random()} for _ in range(nflips)],
-                      'sweep': tier == 'thorough' and rng.random() < 0.05, 'via_copy': rng.random() < 0.4})
+                      'sweep': tier == 'thorough' and rng.random() < 0.05, 'via_copy': rng.random() < 0.4,
+                      'reuse_object': rng.random() < 0.25})
     return {'config': {'keykind': kind, 'created': created, 'uid': rng.choice(['Foreign Signer <f@example.org>', 'Søren <s@example.org>'])},
             'steps': steps}
 
@@ -503,7 +504,13 @@ def _ref_sign_step(pgpy, pkey, pub, secret, uid_octets, step, ctx, shapes):
             pass
         try:
             with watchdog(30):
-                msig = pgpy.PGPSignature.from_blob(bytes(mut))
+                if step.get('reuse_object'):
+                    # the caller loads the next packet into the signature object it already has (and has verified with)
+                    psig.parse(bytearray(mut))
+                    msig = psig
+                    ctx.probe('signature_object_reused')
+                else:
+                    msig = pgpy.PGPSignature.from_blob(bytes(mut))
                 if via_copy:
                     msig = copy.copy(msig)
                 ok = bool(pkey.verify(subj_obj, msig))
